@@ -57,6 +57,7 @@ type Runner struct {
 	Obs                  []*Obs
 	PClosed              bool
 	PCloseBeg, PCloseEnd int64
+	Others               []godi.Provider // further providers built from the same collection (Rebuild), still open
 }
 
 func NewRunner(w *World) *Runner {
@@ -306,6 +307,45 @@ func (r *Runner) Resolve(tag int, id Ident) *Obs {
 	return o
 }
 
+// Rebuild builds the runner's collection once more while the provider under
+// test is in use, resolves what can be resolved from the new provider and from
+// one of its scopes, and leaves it open (it is closed after the provider under
+// test). Each provider built from a collection has its own singletons: nothing
+// the other one constructs may ever be seen through the provider under test.
+func (r *Runner) Rebuild() *Obs {
+	o := &Obs{Kind: "rebuild", StartSeq: r.W.NextSeq()}
+	guard(o, func() {
+		r.W.Foreign(func() {
+			p, err := r.Coll.Build()
+			if err != nil {
+				return // the collection may have been edited into something unbuildable meanwhile
+			}
+			r.mu.Lock()
+			r.Others = append(r.Others, p)
+			r.mu.Unlock()
+			use := func(t godi.Provider) {
+				for _, id := range r.W.M.AllIdents() {
+					switch {
+					case id.Group != "":
+						_, _ = t.GetGroup(RType(id.T), id.Group)
+					case id.Key != "":
+						_, _ = t.GetKeyed(RType(id.T), id.Key)
+					default:
+						_, _ = t.Get(RType(id.T))
+					}
+				}
+			}
+			use(p)
+			if s, err := p.CreateScope(context.Background()); err == nil {
+				use(s)
+			}
+		})
+	})
+	o.EndSeq = r.W.NextSeq()
+	r.addObs(o)
+	return o
+}
+
 // CollEdit is one change made to the collection after the provider was built.
 type CollEdit struct {
 	Remove bool
@@ -414,8 +454,21 @@ func (r *Runner) CloseProvider() *Obs {
 		r.PCloseEnd = o.EndSeq
 	}
 	r.PClosed = true
+	others := r.Others
+	r.Others = nil
 	r.mu.Unlock()
 	r.addObs(o)
+	// the other providers built from the same collection are closed afterwards (not judged)
+	if len(others) > 0 {
+		r.W.Foreign(func() {
+			for _, p := range others {
+				func() {
+					defer func() { _ = recover() }()
+					_ = p.Close()
+				}()
+			}
+		})
+	}
 	return o
 }
 
